@@ -409,40 +409,45 @@ func (fx *FuncExec) doAppend(st *State, reach *Term, args []Value, src string) (
 	hk := elemHeapKey(s.elem)
 	h := fx.heapGet(st, hk, SArr2)
 	oldS := ts.Select(h, s.arr)
-	// base array: in place -> old backing array; fresh -> copy of the live prefix, zero elsewhere
-	fcopy := ts.Fresh("appcopy", SArr)
-	i := ts.Bound("i", SInt)
-	inWin := ts.And(ts.Le(s.off, i), ts.Lt(i, ts.Add(s.off, s.len)))
-	fx.addFact(ts.And(reach, ts.Not(inplace)), ts.Forall([]*Term{i},
-		ts.Eq(ts.Select(fcopy, i), ts.Ite(inWin, ts.Select(oldS, i), ts.Int(0))), ts.Select(fcopy, i)))
-	base := ts.Ite(inplace, oldS, fcopy)
+	// The resulting backing array is one new array constant N defined pointwise by a single axiom:
+	//   N[j] = old[j]                      for j in the live window [off, off+len)
+	//   N[j] = appended element            for j in [off+len, off+newLen)
+	//   N[j] = old[j] if in place, else 0  elsewhere
+	// No case split on in-place/fresh is needed to read the window, which is what keeps chains of
+	// appends cheap for the solvers.
 	start := ts.Add(res.off, s.len)
-	var newArr *Term
+	newArr := ts.Fresh("apparr", SArr)
+	j := ts.Bound("j", SInt)
+	inOld := ts.And(ts.Le(s.off, j), ts.Lt(j, start))
+	outside := ts.Ite(inplace, ts.Select(oldS, j), ts.Int(0))
+	var body *Term
 	if n, ok := constLen(tl); ok && srcIsSlice {
 		oldT := ts.Select(h, tsl.arr)
-		newArr = base
+		body = outside
+		for k := n - 1; k >= 0; k-- {
+			body = ts.Ite(ts.Eq(j, ts.Add(start, ts.Int(int64(k)))), ts.Select(oldT, ts.Add(tsl.off, ts.Int(int64(k)))), body)
+		}
+		// ground instances for the appended positions (no instantiation needed to read them)
 		for k := 0; k < n; k++ {
-			newArr = ts.Store(newArr, ts.Add(start, ts.Int(int64(k))), ts.Select(oldT, ts.Add(tsl.off, ts.Int(int64(k)))))
+			fx.addFact(reach, ts.Eq(ts.Select(newArr, ts.Add(start, ts.Int(int64(k)))), ts.Select(oldT, ts.Add(tsl.off, ts.Int(int64(k))))))
 		}
+	} else if srcIsSlice {
+		oldT := ts.Select(h, tsl.arr)
+		inNew := ts.And(ts.Le(start, j), ts.Lt(j, ts.Add(start, tl)))
+		body = ts.Ite(inNew, ts.Select(oldT, ts.Add(ts.Sub(j, start), tsl.off)), outside)
+		// second form keyed on reads of the source
+		m := ts.Bound("m", SInt)
+		fx.addFact(reach, ts.Forall([]*Term{m},
+			ts.Implies(ts.And(ts.Le(tsl.off, m), ts.Lt(m, ts.Add(tsl.off, tl))),
+				ts.Eq(ts.Select(newArr, ts.Add(ts.Sub(m, tsl.off), start)), ts.Select(oldT, m))), ts.Select(oldT, m)))
 	} else {
-		newArr = ts.Fresh("apparr", SArr)
-		j := ts.Bound("j", SInt)
-		// outside the appended window nothing changes relative to base
-		fx.addFact(reach, ts.Forall([]*Term{j},
-			ts.Implies(ts.Or(ts.Lt(j, start), ts.Le(ts.Add(start, tl), j)), ts.Eq(ts.Select(newArr, j), ts.Select(base, j))),
-			ts.Select(newArr, j)))
-		if srcIsSlice {
-			oldT := ts.Select(h, tsl.arr)
-			k := ts.Bound("k", SInt)
-			fx.addFact(reach, ts.QuantIdx(true, k, ts.And(ts.Le(ts.Int(0), k), ts.Lt(k, tl)),
-				ts.Eq(ts.Select(newArr, ts.Add(start, k)), ts.Select(oldT, ts.Add(tsl.off, k)))))
-		} else {
-			fx.note("append of a string: appended bytes are arbitrary")
-			k := ts.Bound("k", SInt)
-			fx.addFact(reach, ts.QuantIdx(true, k, ts.And(ts.Le(ts.Int(0), k), ts.Lt(k, tl)),
-				ts.And(ts.Le(ts.Int(0), ts.Select(newArr, ts.Add(start, k))), ts.Le(ts.Select(newArr, ts.Add(start, k)), ts.Int(255)))))
-		}
+		fx.note("append of a string: appended bytes are arbitrary")
+		inNew := ts.And(ts.Le(start, j), ts.Lt(j, ts.Add(start, tl)))
+		unk := ts.Fresh("strbytes", SArr)
+		body = ts.Ite(inNew, ts.Mod(ts.Select(unk, j), ts.Int(256)), outside)
 	}
+	body = ts.Ite(inOld, ts.Select(oldS, j), body)
+	fx.addFact(reach, ts.Forall([]*Term{j}, ts.Eq(ts.Select(newArr, j), body), ts.Select(newArr, j)))
 	fx.heapSet(st, hk, ts.Store(h, res.arr, newArr))
 	fx.recordAlloc(ts.And(reach, ts.Not(inplace)), newLen, src)
 	return reach, res
